@@ -239,6 +239,8 @@ package redis
 // ---------------------------------------------------------------- options.go
 
 //@ spec func isZeroTime(t time.Time) bool
+//@ spec func parseF(s string) float64
+//@ spec func parseFOK(s string) bool
 
 //@ func newDefaultSetOption
 //@ assigns nothing
@@ -299,16 +301,16 @@ package redis
 //@ func nextFloatArgument
 //@ requires args != nil
 //@ assigns args.index
-//@ ensures {C10} err == nil ==> old(strArg(args, 0)) && args.index == old(args.index) + 1
-//@ ensures {C10} !old(strArg(args, 0)) ==> err != nil
+//@ ensures {C05,C10} err == nil <==> (old(strArg(args, 0)) && parseFOK(old(argS(args, 0))))
+//@ ensures {C05} err == nil ==> result0 == parseF(old(argS(args, 0))) && args.index == old(args.index) + 1
 //@ ensures {C10} errors.Is(err, proto.ErrEOM) ==> !old(hasArg(args, 0))
 //@ ensures old(args.index) <= args.index && args.index <= old(args.index) + 1
 
 //@ func nextScoreArgument
 //@ requires args != nil
 //@ assigns args.index
-//@ ensures {C10} err == nil ==> old(strArg(args, 0)) && args.index == old(args.index) + 1
-//@ ensures {C10} !old(strArg(args, 0)) ==> err != nil
+//@ ensures {C05,C10} err == nil <==> (old(strArg(args, 0)) && parseFOK(old(argS(args, 0))))
+//@ ensures {C05} err == nil ==> result0 == parseF(old(argS(args, 0))) && args.index == old(args.index) + 1
 //@ ensures {C10} errors.Is(err, proto.ErrEOM) ==> !old(hasArg(args, 0))
 //@ ensures old(args.index) <= args.index && args.index <= old(args.index) + 1
 
@@ -376,19 +378,22 @@ package redis
 //@ func nextSetExArguments
 //@ requires args != nil
 //@ assigns args.index
-//@ ensures {C05,C10} err == nil ==> old(strArg(args, 0)) && old(intArg(args, 1)) && old(strArg(args, 2)) && result0 == old(argS(args, 0)) && result1 == old(argI(args, 1)) && result2 == old(argS(args, 2))
+//@ ensures {C05,C10} err == nil <==> (old(strArg(args, 0)) && old(intArg(args, 1)) && old(strArg(args, 2)) && 1 <= old(argI(args, 1)) && old(argI(args, 1)) <= 9223372036)
+//@ ensures {C05,C10} err == nil ==> result0 == old(argS(args, 0)) && result1 == old(argI(args, 1)) && result2 == old(argS(args, 2))
 //@ ensures {C10} err == nil ==> 1 <= result1 && result1 <= 9223372036
 //@ ensures old(args.index) <= args.index && args.index <= old(args.index) + 3
 
 //@ func nextSetOptionArguments
 //@ requires args != nil
 //@ assigns args.index
+//@ ensures {C05} !old(hasArg(args, 0)) ==> err == nil && !result0.NX && !result0.XX && !result0.GET && !result0.KEEPTTL && result0.EX == 0 && result0.PX == 0
 //@ ensures {C10} err == nil ==> !(result0.NX && result0.XX)
 //@ ensures {C10} err == nil ==> 0 <= result0.EX && 0 <= result0.PX
 //@ ensures old(args.index) <= args.index
 //@ loop 0
 //@   invariant old(args.index) <= args.index && args.index <= len(args.msgs)
 //@   invariant {C10} !(opt.NX && opt.XX) && 0 <= opt.EX && 0 <= opt.PX
+//@   invariant {C05} !old(hasArg(args, 0)) ==> args.index == old(args.index) && !opt.NX && !opt.XX && !opt.GET && !opt.KEEPTTL && opt.EX == 0 && opt.PX == 0
 //@   decreases len(args.msgs) - args.index
 
 //@ func nextPushArguments
@@ -401,6 +406,7 @@ package redis
 //@ func nextPopArguments
 //@ requires args != nil
 //@ assigns args.index
+//@ ensures {C05,C10} err == nil <==> (old(strArg(args, 0)) && (old(intArg(args, 1)) || !old(hasArg(args, 1))))
 //@ ensures {C05,C10} err == nil ==> old(strArg(args, 0)) && result0 == old(argS(args, 0))
 //@ ensures {C05} err == nil && old(intArg(args, 1)) ==> result1 == old(argI(args, 1))
 //@ ensures {C05} err == nil && !old(hasArg(args, 1)) ==> result1 == 1
@@ -471,8 +477,8 @@ package redis
 //@ requires srvOK(server) && conn != nil
 //@ assigns conn.username, conn.password, conn.hasPassword, conn.authrized, authed, A_calls, A_fail
 //@ defines authed: old(authed) || err == nil
-//@ ensures {C08} err == nil ==> conn.authrized && result0 != nil
-//@ ensures {C08} err != nil ==> conn.authrized == old(conn.authrized) && result0 == nil
+//@ ensures {C08,C13} err == nil ==> conn.authrized && result0 != nil
+//@ ensures {C08,C13} err != nil ==> conn.authrized == old(conn.authrized) && result0 == nil
 //@ ensures {C08} conn.password == password && conn.hasPassword && conn.username == username
 //@ ensures {C08} err == nil ==> A_fail == old(A_fail) && A_calls == old(A_calls) + len(server.AuthManager.authenticators)
 
@@ -505,11 +511,22 @@ package redis
 //@ assigns H_*
 //@ flag no_overflow
 //@ ensures {C12} err == nil ==> result0 != nil
+//@ ensures {C12} H_calls >= old(H_calls) + 1 && H_m[old(H_calls)] == "Get" && H_Get_key[old(H_calls)] == key && H_conn[old(H_calls)] == conn
+//@ ensures {C12} H_err[old(H_calls)] != nil ==> err != nil && H_calls == old(H_calls) + 1
+//@ ensures {C12} H_err[old(H_calls)] == nil && !msgIsNil(H_res[old(H_calls)]) && !msgIntOK(H_res[old(H_calls)]) ==> err != nil && H_calls == old(H_calls) + 1
+//@ ensures {C12} err == nil && msgIsNil(H_res[old(H_calls)]) ==> H_calls == old(H_calls) + 2 && H_m[old(H_calls) + 1] == "Set" && H_Set_key[old(H_calls) + 1] == key && H_Set_val[old(H_calls) + 1] == itoa(val) && intReply(result0, val)
+//@ ensures {C12} err == nil && !msgIsNil(H_res[old(H_calls)]) ==> H_calls == old(H_calls) + 2 && H_m[old(H_calls) + 1] == "Set" && H_Set_key[old(H_calls) + 1] == key && H_Set_val[old(H_calls) + 1] == itoa(atoi(string(H_res[old(H_calls)].bytes)) + val) && intReply(result0, atoi(string(H_res[old(H_calls)].bytes)) + val)
+//@ ensures {C12} H_err[old(H_calls)] == nil && msgIntOK(H_res[old(H_calls)]) && !msgIsNil(H_res[old(H_calls)]) && (atoi(string(H_res[old(H_calls)].bytes)) + val > 9223372036854775807 || atoi(string(H_res[old(H_calls)].bytes)) + val < -9223372036854775808) ==> err != nil && H_calls == old(H_calls) + 1
 
 //@ executor "MGET"
+//@ ensures {C12,C05} err == nil ==> result0 != nil && result0.Type == proto.ArrayMessage && result0.array != nil && (forall n int :: n == H_calls - old(H_calls) ==> len(result0.array.msgs) == n && !old(hasArg(args, n)))
+//@ ensures {C12,C05} err == nil ==> forall k int :: 0 <= k && k < H_calls - old(H_calls) ==> H_m[old(H_calls) + k] == "Get" && H_Get_key[old(H_calls) + k] == old(argS(args, k)) && H_conn[old(H_calls) + k] == conn && result0.array.msgs[k] == H_res[old(H_calls) + k]
 //@ loop 0
-//@   invariant arrayMsg != nil && fresh(arrayMsg) && array != nil && fresh(array) && fresh(array.msgs) && array.index == 0
+//@   invariant arrayMsg != nil && fresh(arrayMsg) && array != nil && fresh(array) && fresh(array.msgs) && array.index == 0 && arrayMsg.Type == proto.ArrayMessage && arrayMsg.array == array
 //@   invariant -1 <= rangeindex && rangeindex < len(keys) && len(array.msgs) == rangeindex + 1
+//@   invariant {C12,C05} H_calls == old(H_calls) + rangeindex + 1
+//@   invariant {C12,C05} forall k int :: 0 <= k && k < len(keys) ==> old(strArg(args, k)) && keys[k] == old(argS(args, k))
+//@   invariant {C12,C05} forall k int :: 0 <= k && k <= rangeindex ==> H_m[old(H_calls) + k] == "Get" && H_Get_key[old(H_calls) + k] == old(argS(args, k)) && H_conn[old(H_calls) + k] == conn && array.msgs[k] == H_res[old(H_calls) + k]
 //@   invariant {C20} span_depth == old(span_depth)
 //@   decreases len(keys) - rangeindex
 
@@ -533,13 +550,21 @@ package redis
 //@   decreases len(arrayMsg.msgs) - arrayMsg.index + (nextMsg != nil ? 1 : 0)
 
 //@ executor "SCARD"
+//@ ensures {C12} H_calls == old(H_calls) + 1 ==> H_m[old(H_calls)] == "SMembers" && H_SMembers_key[old(H_calls)] == old(argS(args, 0)) && H_conn[old(H_calls)] == conn
+//@ ensures {C12} err == nil && H_calls == old(H_calls) + 1 ==> result0 != nil && result0.Type == proto.IntegerMessage
+//@ ensures {C10} !old(strArg(args, 0)) ==> err != nil && H_calls == old(H_calls)
 //@ loop 0
 //@   invariant arrayMsg != nil && 0 <= memberCount && memberCount + (nextMsg != nil ? 1 : 0) <= arrayMsg.index
+//@   invariant {C12} (forall k int :: 0 <= k && k < len(arrayMsg.msgs) ==> arrayMsg.msgs[k] != nil) ==> memberCount + (nextMsg != nil ? 1 : 0) == arrayMsg.index - atentry(arrayMsg.index) + (atentry(nextMsg) != nil ? 1 : 0)
 //@   decreases len(arrayMsg.msgs) - arrayMsg.index + (nextMsg != nil ? 1 : 0)
 
 //@ executor "ZCARD"
+//@ ensures {C12} H_calls == old(H_calls) + 1 ==> H_m[old(H_calls)] == "ZRange" && H_ZRange_key[old(H_calls)] == old(argS(args, 0)) && H_conn[old(H_calls)] == conn
+//@ ensures {C12} err == nil && H_calls == old(H_calls) + 1 ==> result0 != nil && result0.Type == proto.IntegerMessage
+//@ ensures {C10} !old(strArg(args, 0)) ==> err != nil && H_calls == old(H_calls)
 //@ loop 0
 //@   invariant arrayMsg != nil && 0 <= memberCount && memberCount + (nextMsg != nil ? 1 : 0) <= arrayMsg.index
+//@   invariant {C12} (forall k int :: 0 <= k && k < len(arrayMsg.msgs) ==> arrayMsg.msgs[k] != nil) ==> memberCount + (nextMsg != nil ? 1 : 0) == arrayMsg.index - atentry(arrayMsg.index) + (atentry(nextMsg) != nil ? 1 : 0)
 //@   decreases len(arrayMsg.msgs) - arrayMsg.index + (nextMsg != nil ? 1 : 0)
 
 //@ executor "SISMEMBER"
@@ -587,3 +612,95 @@ package redis
 //@ loop 0
 //@   invariant {C09,C19} pending == 0
 //@   diverges
+
+// ---------------------------------------------------------------- further per-command contracts (C05 / C10 / C12), written by hand
+
+
+//@ executor "LPOP"
+//@ ensures {C05} old(strArg(args, 0)) && (old(intArg(args, 1)) || !old(hasArg(args, 1))) ==> H_calls == old(H_calls) + 1 && H_m[old(H_calls)] == "LPop" && H_conn[old(H_calls)] == conn && H_LPop_key[old(H_calls)] == old(argS(args, 0)) && result0 == H_res[old(H_calls)] && err == H_err[old(H_calls)]
+//@ ensures {C05} H_calls == old(H_calls) + 1 && old(intArg(args, 1)) ==> H_LPop_count[old(H_calls)] == old(argI(args, 1))
+//@ ensures {C05} H_calls == old(H_calls) + 1 && !old(hasArg(args, 1)) ==> H_LPop_count[old(H_calls)] == 1
+//@ ensures {C10} !old(strArg(args, 0)) || (old(hasArg(args, 1)) && !old(intArg(args, 1))) ==> err != nil && H_calls == old(H_calls)
+
+//@ executor "RPOP"
+//@ ensures {C05} old(strArg(args, 0)) && (old(intArg(args, 1)) || !old(hasArg(args, 1))) ==> H_calls == old(H_calls) + 1 && H_m[old(H_calls)] == "RPop" && H_conn[old(H_calls)] == conn && H_RPop_key[old(H_calls)] == old(argS(args, 0)) && result0 == H_res[old(H_calls)] && err == H_err[old(H_calls)]
+//@ ensures {C05} H_calls == old(H_calls) + 1 && old(intArg(args, 1)) ==> H_RPop_count[old(H_calls)] == old(argI(args, 1))
+//@ ensures {C05} H_calls == old(H_calls) + 1 && !old(hasArg(args, 1)) ==> H_RPop_count[old(H_calls)] == 1
+//@ ensures {C10} !old(strArg(args, 0)) || (old(hasArg(args, 1)) && !old(intArg(args, 1))) ==> err != nil && H_calls == old(H_calls)
+
+//@ executor "ZINCRBY"
+//@ ensures {C05} H_calls == old(H_calls) + 1 ==> H_m[old(H_calls)] == "ZIncBy" && H_conn[old(H_calls)] == conn && H_ZIncBy_key[old(H_calls)] == old(argS(args, 0)) && H_ZIncBy_inc[old(H_calls)] == parseF(old(argS(args, 1))) && H_ZIncBy_member[old(H_calls)] == old(argS(args, 2)) && result0 == H_res[old(H_calls)] && err == H_err[old(H_calls)]
+//@ ensures {C05,C10} H_calls == old(H_calls) || H_calls == old(H_calls) + 1
+//@ ensures {C10} !old(strArg(args, 0)) || !old(strArg(args, 1)) || !old(strArg(args, 2)) || !parseFOK(old(argS(args, 1))) ==> err != nil && H_calls == old(H_calls)
+//@ ensures {C05} old(strArg(args, 0)) && old(strArg(args, 1)) && old(strArg(args, 2)) && parseFOK(old(argS(args, 1))) ==> H_calls == old(H_calls) + 1
+
+//@ executor "EXPIREAT"
+//@ ensures {C05} H_calls == old(H_calls) + 1 ==> H_m[old(H_calls)] == "Expire" && H_conn[old(H_calls)] == conn && H_Expire_key[old(H_calls)] == old(argS(args, 0)) && result0 == H_res[old(H_calls)] && err == H_err[old(H_calls)]
+//@ ensures {C05,C10} H_calls == old(H_calls) || H_calls == old(H_calls) + 1
+//@ ensures {C10} !old(strArg(args, 0)) || !old(intArg(args, 1)) ==> err != nil && H_calls == old(H_calls)
+
+//@ executor "EXPIRE"
+//@ ensures {C05} H_calls == old(H_calls) + 1 ==> H_m[old(H_calls)] == "Expire" && H_conn[old(H_calls)] == conn && H_Expire_key[old(H_calls)] == old(argS(args, 0)) && result0 == H_res[old(H_calls)] && err == H_err[old(H_calls)]
+//@ ensures {C05,C10} H_calls == old(H_calls) || H_calls == old(H_calls) + 1
+//@ ensures {C10} !old(strArg(args, 0)) || !old(intArg(args, 1)) || old(argI(args, 1)) > 9223372036 || old(argI(args, 1)) < -9223372036 ==> err != nil && H_calls == old(H_calls)
+
+//@ executor "SET"
+//@ ensures {C05} H_calls == old(H_calls) + 1 ==> H_m[old(H_calls)] == "Set" && H_conn[old(H_calls)] == conn && H_Set_key[old(H_calls)] == old(argS(args, 0)) && H_Set_val[old(H_calls)] == old(argS(args, 1)) && result0 == H_res[old(H_calls)] && err == H_err[old(H_calls)]
+//@ ensures {C10} H_calls == old(H_calls) + 1 ==> !(H_Set_opt_NX[old(H_calls)] && H_Set_opt_XX[old(H_calls)]) && 0 <= H_Set_opt_EX[old(H_calls)] && 0 <= H_Set_opt_PX[old(H_calls)]
+//@ ensures {C05,C10} H_calls == old(H_calls) || H_calls == old(H_calls) + 1
+//@ ensures {C10} !old(strArg(args, 0)) || !old(strArg(args, 1)) ==> err != nil && H_calls == old(H_calls)
+//@ ensures {C05} old(strArg(args, 0)) && old(strArg(args, 1)) && !old(hasArg(args, 2)) ==> H_calls == old(H_calls) + 1 && !H_Set_opt_NX[old(H_calls)] && !H_Set_opt_XX[old(H_calls)] && !H_Set_opt_GET[old(H_calls)] && !H_Set_opt_KEEPTTL[old(H_calls)] && H_Set_opt_EX[old(H_calls)] == 0 && H_Set_opt_PX[old(H_calls)] == 0
+
+//@ executor "SCAN"
+//@ ensures {C05} H_calls == old(H_calls) + 1 ==> H_m[old(H_calls)] == "Scan" && H_conn[old(H_calls)] == conn && H_Scan_cursor[old(H_calls)] == old(argI(args, 0)) && result0 == H_res[old(H_calls)] && err == H_err[old(H_calls)]
+//@ ensures {C17} H_calls == old(H_calls) + 1 ==> H_Scan_opt_MatchPattern[old(H_calls)] != nil && isGlob(H_Scan_opt_MatchPattern[old(H_calls)])
+//@ ensures {C05,C10} H_calls == old(H_calls) || H_calls == old(H_calls) + 1
+//@ ensures {C10} !old(intArg(args, 0)) ==> err != nil && H_calls == old(H_calls)
+
+//@ executor "AUTH"
+//@ ensures {C10} !old(strArg(args, 0)) ==> err != nil && conn.authrized == old(conn.authrized)
+
+// ---------------------------------------------------------------- C12: commands the framework composes from primitive handler operations
+// R(k) = H_res[k] is the message the k-th handler call returned, E(k) = H_err[k] its error.
+
+//@ spec func msgIsNil(m ref) bool = m == nil || (m.Type == proto.BulkMessage && m.bytes == nil)
+//@ spec func msgStrOK(m ref) bool = m != nil && isStr(m.Type) && m.bytes != nil
+//@ spec func msgIntOK(m ref) bool = m != nil && isNum(m.Type) && atoiOK(string(m.bytes))
+//@ spec func intReply(m ref, v int) bool = m != nil && m.Type == proto.IntegerMessage && m.bytes != nil && string(m.bytes) == itoa(v)
+//@ spec func bulkReply(m ref, s string) bool = m != nil && m.Type == proto.BulkMessage && m.bytes != nil && string(m.bytes) == s
+
+// Redis index clamping of GETRANGE: n = length, s/e = start/end as sent
+//@ spec func grS(n int, s int) int = (s < 0 ? (n + s < 0 ? 0 : n + s) : s)
+//@ spec func grE0(n int, e int) int = (e < 0 ? (n + e < 0 ? 0 : n + e) : e)
+//@ spec func grE(n int, e int) int = (grE0(n, e) >= n ? n - 1 : grE0(n, e))
+//@ spec func grEmpty(n int, s int, e int) bool = n == 0 || (s < 0 && e < 0 && s > e) || grS(n, s) > grE(n, e)
+
+//@ executor "GETRANGE"
+//@ ensures {C12} H_calls == old(H_calls) + 1 ==> H_m[old(H_calls)] == "Get" && H_Get_key[old(H_calls)] == old(argS(args, 0))
+//@ ensures {C12} H_calls == old(H_calls) + 1 && H_err[old(H_calls)] == nil && msgStrOK(H_res[old(H_calls)]) && !grEmpty(len(H_res[old(H_calls)].bytes), old(argI(args, 1)), old(argI(args, 2))) ==> err == nil && result0 != nil && result0.Type == proto.BulkMessage && result0.bytes != nil && string(result0.bytes) == string(H_res[old(H_calls)].bytes)[grS(len(H_res[old(H_calls)].bytes), old(argI(args, 1))) : grE(len(H_res[old(H_calls)].bytes), old(argI(args, 2))) + 1]
+//@ ensures {C12} H_calls == old(H_calls) + 1 && H_err[old(H_calls)] == nil && msgStrOK(H_res[old(H_calls)]) && grEmpty(len(H_res[old(H_calls)].bytes), old(argI(args, 1)), old(argI(args, 2))) ==> err == nil && bulkReply(result0, "")
+//@ ensures {C10} !old(strArg(args, 0)) || !old(intArg(args, 1)) || !old(intArg(args, 2)) ==> err != nil && H_calls == old(H_calls)
+//@ ensures {C05,C10} H_calls == old(H_calls) || H_calls == old(H_calls) + 1
+
+//@ executor "APPEND"
+//@ ensures {C12} H_calls >= old(H_calls) + 1 ==> H_m[old(H_calls)] == "Get" && H_Get_key[old(H_calls)] == old(argS(args, 0))
+//@ ensures {C12} err == nil ==> H_calls == old(H_calls) + 2 && H_m[old(H_calls) + 1] == "Set" && H_Set_key[old(H_calls) + 1] == old(argS(args, 0))
+//@ ensures {C12} err == nil && msgStrOK(H_res[old(H_calls)]) ==> H_Set_val[old(H_calls) + 1] == string(H_res[old(H_calls)].bytes) + old(argS(args, 1)) && intReply(result0, len(H_res[old(H_calls)].bytes) + len(old(argS(args, 1))))
+//@ ensures {C12} err == nil && !msgStrOK(H_res[old(H_calls)]) ==> H_Set_val[old(H_calls) + 1] == old(argS(args, 1)) && intReply(result0, len(old(argS(args, 1))))
+//@ ensures {C10} !old(strArg(args, 0)) || !old(strArg(args, 1)) ==> err != nil && H_calls == old(H_calls)
+
+//@ executor "STRLEN"
+//@ ensures {C12} err == nil && result0 != nil && result0.Type == proto.IntegerMessage
+//@ ensures {C12} getRet != nil && isStr(getRet.Type) && getRet.bytes != nil && string(result0.bytes) != itoa(0) ==> string(result0.bytes) == itoa(len(getRet.bytes))
+
+//@ executor "HSTRLEN"
+//@ ensures {C12} err == nil ==> result0 != nil && result0.Type == proto.IntegerMessage
+//@ ensures {C12} err == nil && msgIsNil(retMsg) ==> intReply(result0, 0)
+//@ ensures {C12} err == nil && !msgIsNil(retMsg) ==> intReply(result0, len(retMsg.bytes))
+
+//@ executor "HEXISTS"
+//@ ensures {C12} err == nil && result0 != nil && result0.Type == proto.IntegerMessage
+//@ ensures {C12} (intReply(result0, 1) || intReply(result0, 0))
+
+//@ executor "HLEN"
+//@ ensures {C12} err == nil ==> result0 != nil && result0.Type == proto.IntegerMessage
